@@ -250,6 +250,17 @@ func (a *accounting) structValue(sv reflect.Value, n *oracle.Node, exact bool) {
 					entries = append(entries, e)
 				}
 			}
+			if len(entries) > 1 {
+				// the writer's convention for "no tag" is the nil tag "-"; an entry whose tag is the empty string has no name a
+				// language map could give it, it is treated like an entry without text
+				var tagged []ap.LangRefValue
+				for _, e := range entries {
+					if len(e.Ref) > 0 {
+						tagged = append(tagged, e)
+					}
+				}
+				entries = tagged
+			}
 			mm := n.Get(f.Term + "Map")
 			switch {
 			case len(entries) == 0:
@@ -507,7 +518,18 @@ func c02Check(writer string, x interface{}) (ds []keyed, out []byte) {
 				entries = append(entries, e)
 			}
 		}
-		if len(entries) == 1 {
+		if len(entries) > 1 {
+			var tagged []ap.LangRefValue
+			for _, e := range entries {
+				if len(e.Ref) > 0 {
+					tagged = append(tagged, e)
+				}
+			}
+			entries = tagged
+		}
+		if len(entries) == 1 && root.Kind == "object" && len(root.Members) == 1 {
+			a.str("NaturalLanguageValues", "value", string(entries[0].Value), root.Members[0].Val, exact)
+		} else if len(entries) == 1 {
 			a.str("NaturalLanguageValues", "value", string(entries[0].Value), root, exact)
 		} else if root.Kind != "object" {
 			a.add("NaturalLanguageValues", "value", "wrong-kind", worst, "language values written as "+nodeDesc(root))
@@ -534,7 +556,7 @@ func c02Check(writer string, x interface{}) (ds []keyed, out []byte) {
 
 // hostile constants for string positions
 var c02Hostile = []string{
-	`"`, `\`, `a"b`, `a\b`, `a\"b`, `"leading`, `trailing"`, `trailing\`, `\\`, `\n`, "line\nfeed", "tab\there", "nul\x00byte", "\x1f", "\x7f", "cr\rlf\n",
+	``, `"`, `\`, `a"b`, `a\b`, `a\"b`, `"leading`, `trailing"`, `trailing\`, `\\`, `\n`, "line\nfeed", "tab\there", "nul\x00byte", "\x1f", "\x7f", "cr\rlf\n",
 	`","type":"Delete`, `","id":"https://evil.example/x`, `"},{"type":"Note`, `"]`, `\","x":"`, `\u0041`, `\ud800`, "\u2028", "\u2029", "😀", "é", "\ufffd",
 	"\xff", "a\xc3", "\xed\xa0\x80", `{"a":"b"}`, `[1,2]`, `null`, `true`, `42`, `"q"`, `C:\new\table`, `</script>`, `&amp;`, ` `, `a b`,
 }
